@@ -108,6 +108,22 @@ def static_check(ctx, mode, total, extra="", select=None, oracle_relevant=None, 
             if m is None:
                 corr = corr or (c, "model produced no output")
                 continue
+            # ---- "no candidate set examined twice" (PR / ID), judged by the driver on the RECORDED events of the
+            # implementation (driver/d_static.ml: notwice_judge); independent of the impl/model comparison below
+            for vl in m.outs[1:]:
+                if vl.startswith("notwice "):
+                    nt = stats.setdefault("notwice", {"judged": 0, "candidates": 0, "skipped": 0, "bad": 0})
+                    t = vl.split(" ", 2)
+                    if t[1] == "ok":
+                        nt["judged"] += 1
+                        nt["candidates"] += int(t[2])
+                    elif t[1] == "skipped":
+                        nt["skipped"] += 1
+                    else:
+                        nt["bad"] += 1
+                        if ctx.prop == "C18":
+                            ctx.violation("%s: a candidate set of the maximal-extension search is examined twice / is not a base set (recorded trace of the implementation): %s"
+                                          % (c.kind, vl[len("notwice bad "):]), c.text(), found_input=True, key="notwice" + c.kind)
             de = first_diff(canon_events(until_unknown(c.evs)), canon_events(until_unknown(m.evs)))
             if de is not None:
                 corr = corr or (c, "event %d: impl `%s` model `%s`" % de)
